@@ -137,6 +137,16 @@ def b58check_decode_account(s):
 
 
 
+def b58check_encode_raw(raw):
+    """plain Base58 of a byte string (reference)"""
+    n = int.from_bytes(raw, "big")
+    out = ""
+    while n > 0:
+        n, r = divmod(n, 58)
+        out = B58[r] + out
+    return "1" * (len(raw) - len(raw.lstrip(b"\0"))) + out
+
+
 def b58_raw(s):
     """plain Base58 decoding (reference), None if a character is outside the alphabet"""
     if any(ch not in B58 for ch in s):
@@ -581,6 +591,64 @@ def run(ctx):
     samples += [{"t": cs["t"], "v": cs["v"], "printed": "".join(chr(x) for x in cs["s"])} for cs in tcases if cs["k"] == "p"][-3:]
     ctx.cov["evaluations"] += len(idx)
     ctx.cov["traces_validated_against_impl"] += len(idx)
+
+    # ------------------------------------------------------------------ account-address near-miss strings
+    import random
+    rnd = random.Random(ctx.seed + 77)
+    cand = []
+    for _ in range(12 if ctx.quick else 150):
+        addr = bytes(rnd.randrange(256) for _ in range(32)) if rnd.randrange(4) else bytes([rnd.choice([0, 255])] * 32)
+        cand.append(("valid", b58check_encode(1, addr)))
+        cand.append(("version", b58check_encode(rnd.choice([0, 2, 3, 255]), addr)))
+        cand.append(("length", b58check_encode(1, addr[:rnd.choice([0, 1, 31])])))
+        cand.append(("length", b58check_encode(1, addr + bytes(rnd.randrange(1, 3)))))
+        raw = bytearray(b58_raw(b58check_encode(1, addr)))
+        raw[rnd.randrange(33, 37)] ^= 1 << rnd.randrange(8)
+        cand.append(("checksum", b58check_encode_raw(bytes(raw))))
+        raw = bytearray(b58_raw(b58check_encode(1, addr)))
+        raw[rnd.randrange(1, 33)] ^= 1 << rnd.randrange(8)
+        cand.append(("payload-bit", b58check_encode_raw(bytes(raw))))
+        cand.append(("leading-one", "1" + b58check_encode(1, addr)))
+        cand.append(("no-checksum", b58check_encode_raw(bytes([1]) + addr)))
+    rc, out = c.run_bin(binp, ["accparse"], timeout=600, input=("\n".join(x for _, x in cand) + "\n").encode())
+    if rc != 0:
+        ctx.violation({"layer": "harness run (accparse)", "output": out[-2000:]}, "accparse harness crashed", no_input=True)
+        return
+    ares = [json.loads(l) for l in out.split("\n") if l.startswith("{")]
+    aexprs = []
+    for (_, sx) in cand:
+        raw = b58_raw(sx)
+        ck = dsha4(raw[:-4]) if raw is not None and len(raw) >= 4 else [0, 0, 0, 0]
+        aexprs.append("parse_account_address (fun _ => %s) %s" % (nlist(ck), nlist([ord(ch) for ch in sx])))
+    aterms = c.coq_eval(ctx, "accparse", PREAMBLE, aexprs, shard=600)
+    adist = {}
+    nviol = 0
+    for (cls, sx), pr, term in zip(cand, ares, aterms):
+        adist[cls] = adist.get(cls, 0) + 1
+        key = c.digest(["accparse", sx])
+        seen.add(key)
+        m = None if term == "None" else bytes(term[1]).hex()
+        want = b58check_decode_account(sx)
+        bad = None
+        if pr["r"] != m:
+            bad = "implementation %s, model %s" % (pr["r"], m)
+        elif pr["r"] != want:
+            bad = "implementation %s, Base58Check reference %s" % (pr["r"], want)
+        elif (cls == "valid") != (pr["r"] is not None):
+            bad = "a %s candidate is %s" % (cls, "rejected" if pr["r"] is None else "accepted")
+        elif pr["address"] != pr["r"]:
+            bad = "Address::from_str disagrees with AccountAddress::from_str (%s)" % pr["address"]
+        if bad:
+            nviol += 1
+            if nviol <= 6:
+                ctx.violation({"kind": "account-address-candidate", "class": cls, "string": sx, "impl": pr, "model": m, "reference": want,
+                               "theorem": "account_address_accepts_exactly_printed / wrong_{checksum,version,length}_rejected"},
+                              "AccountAddress %s candidate %r: %s" % (cls, sx, bad))
+        elif m is not None:
+            nontrivial.add(key)
+    ctx.notes["account_address_candidates"] = adist
+    ctx.cov["evaluations"] += len(cand)
+    ctx.cov["traces_validated_against_impl"] += len(cand)
 
     # ------------------------------------------------------------------ arithmetic
     na = 40 if ctx.quick else 500
